@@ -26,6 +26,9 @@ SPEC = os.path.join(VERIF, 'spec')
 HARNESS = os.path.join(VERIF, 'harness')
 TLA_CP = '/opt/veriftools/tla/tla2tools.jar:/opt/veriftools/tla/CommunityModules-deps.jar'
 GUARD = 'SCMO_VERIF'
+# evidence / replay directories can be redirected (mutation runs against scratch worktrees must not overwrite real evidence)
+EVIDENCE_DIR = os.environ.get('VERIF_EVIDENCE_DIR', os.path.join(VERIF, 'evidence'))
+REPLAY_DIR = os.environ.get('VERIF_REPLAY_DIR', os.path.join(VERIF, 'replays'))
 
 EXIT_OK, EXIT_VIOLATION, EXIT_MACHINERY = 0, 1, 2
 
@@ -424,14 +427,14 @@ class Check:
 
     # -- finish ---------------------------------------------------------------------------------
     def finish(self, rule, exhaustive=False, extra_cov=None):
-        os.makedirs(os.path.join(VERIF, 'evidence'), exist_ok=True)
+        os.makedirs(EVIDENCE_DIR, exist_ok=True)
         for kh in self.known_hits:
             print('KNOWN-FINDING: property=%s %s :: %s' % (self.pid, kh['key'], kh['what']))
         vio_lines = []
         if self.violations:
-            os.makedirs(os.path.join(VERIF, 'replays'), exist_ok=True)
+            os.makedirs(REPLAY_DIR, exist_ok=True)
         for i, v in enumerate(self.violations):
-            path = os.path.join(VERIF, 'replays', '%s_%s_%d.json' % (self.pid, re.sub(r'[^A-Za-z0-9_.=-]+', '_', v['key'])[:80], i))
+            path = os.path.join(REPLAY_DIR, '%s_%s_%d.json' % (self.pid, re.sub(r'[^A-Za-z0-9_.=-]+', '_', v['key'])[:80], i))
             with open(path, 'w') as f:
                 json.dump({'property': self.pid, 'key': v['key'], 'what': v['what'], 'count': v['count'], 'seed': self.seed,
                            'tier': self.tier, 'repo': REPO, 'case': v['payload']}, f, indent=1, default=str)
@@ -453,7 +456,7 @@ class Check:
             cov.update(extra_cov)
         ev = {'property_id': self.pid, 'tier': self.tier, 'seed': self.seed, 'level': self.level, 'coverage': cov,
               'assumptions': self.assumptions, 'wall_s': round(time.time() - self.t0, 2), 'violations': len(self.violations)}
-        with open(os.path.join(VERIF, 'evidence', '%s.json' % self.pid), 'w') as f:
+        with open(os.path.join(EVIDENCE_DIR, '%s.json' % self.pid), 'w') as f:
             json.dump(ev, f, indent=1, default=str)
         for ln in vio_lines:
             print(ln)
